@@ -196,7 +196,12 @@ theorem gen_machine_contains_chip (m : Mach) (p : P2) :
     (PyFun.Machine_contains_chip m.w m.h m.deadChips (deadLinksPy m) p).1 = m.hasChip p := by
   obtain ⟨x, y⟩ := p
   unfold PyFun.Machine_contains_chip Mach.hasChip
-  simp only [Bool.decide_and, Bool.and_assoc, decide_not, Bool.decide_eq_true]
+  first
+    | (simp only [Bool.decide_and, Bool.and_assoc, decide_not, Bool.decide_eq_true]; done)
+    | (rw [Bool.eq_iff_iff]
+       simp only [decide_eq_true_eq, Bool.and_eq_true, Bool.not_eq_true', Bool.not_eq_true, decide_not,
+         Bool.decide_eq_true, Bool.decide_and]
+       cases m.deadChips.contains (x, y) <;> simp <;> omega)
 
 /-- `(x, y, link) in machine` as written in the source = the model's `hasLink` -/
 theorem gen_machine_contains_link (m : Mach) (p : P2) (l : Nat) :
